@@ -24,6 +24,9 @@ PENDING = {}
 LEVEL_TEXT = 'Seeded search over schedules, configurations, fault sequences and operation histories with reference models as oracles; a clean batch is evidence, not proof.'
 
 CHECKS = {
+    'C15': dict(engine='simpool+simmpi', design='5/C15, 4.2',
+                technique='deterministic simulation: in-process multiprocessing.Pool with per-worker forked-globals overlays; tape-chosen worker count, dispatch/completion order, lazy vs eager background progress and read faults; striped loaders on simulated MPI ranks; save/load round trips against the saved rows',
+                note='Trusted base: simpool semantics (modelled on CPython multiprocessing.pool), mdtraj and PyTables as reference readers, NumPy. Tasks are atomic. <= 12 files x <= 12 frames x <= 9 atoms; <= 120 rows (1100 thorough).'),
     'C13': dict(engine='simgomp+simalloc', design='5/C13, 4.3',
                 technique='deterministic simulation: the unmodified compiled kernels linked against a simulated OpenMP runtime (virtual-thread teams with tape-chosen order, snapshot-isolated memory merged last-writer-wins) on a poisoned, red-zoned heap; exact rational reference',
                 note='Trusted base: simgomp/simalloc (sim/native/simrt.c), exact-arithmetic reference, NumPy. Segments between barriers are not interleaved at instruction level; snapshot isolation is the stricter memory model used instead. 0..70 samples x 0..9 features, teams of 1..64.'),
